@@ -837,6 +837,7 @@ pub fn run(ctx: &mut Ctx) {
         "column index + values of real columnar files cross-decoded by the model (cardinality, optional index, start offsets, values)".into(),
         "merge row mapping: read(model mergeShuffled / mergeStacked) = real merged column rows".into(),
         "model decode of real compact-space (IP) column bytes = indexed u128 values; footer min/max equal".into(),
+        "compact-space range lookup (query range -> compact range incl. gaps) = model on the real column bytes".into(),
         "Column::get_docids_for_value_range on written u64 columns = model (docid_range_to_rowids + select_batch_in_place)".into(),
         "cardinality of every written column = the model of ColumnWriter (op log, delta_with_last_doc); model writer reads back its rows".into(),
     ];
